@@ -221,6 +221,10 @@ def _are_sets_equal(x, y, _exact_strings, _delta):
     for x_element in x:
         if not _set_contains(x_element, y, _exact_strings, _delta):
             return False
+    # ... and the other way round: with a tolerance two elements of x can find the same partner
+    for y_element in y:
+        if not _set_contains(y_element, x, _exact_strings, _delta):
+            return False
     return True
 
 
